@@ -182,6 +182,17 @@ def configuration_wiring(chk: Check, repo: Repo) -> None:
             else:
                 good = good and isinstance(v, ast.Call) and call_name(v) == "DataSecure.init_from_keyring" and [ast.unparse(a) for a in v.args] + [ast.unparse(k.value) for k in v.keywords] == [kp]
     chk.ob("keyring-always-installs-data-secure", di.site(), good and seen >= 2 and cfg.all_paths_hit(cfg.entry, [n.id for n in cfg.nodes if n.kind == "stmt" and isinstance(n.ast, ast.Assign) and ast.unparse(n.ast.targets[0]) == "self.data_secure"], [cfg.exit], edge_ok=cfg.normal_only), "data_secure_init: None only without a keyring, otherwise DataSecure.init_from_keyring(keyring); assigned on every normal path", key="wiring|init")
+    # (1b) ... and init_from_keyring itself answers None only for a keyring without group keys: a keyring whose secured
+    # groups list no senders still makes its group addresses keyed (plain frames to them are refused, frames to them
+    # are sent secured)
+    ik = repo.func("xknx.secure.data_secure", "DataSecure.init_from_keyring")
+    chk.unit(ik)
+    icfg = CFG(ik.node)
+    imf = icfg.must_facts()
+    keys_local = next((t.id for n in walk_local(ik.node) if isinstance(n, ast.Assign) and isinstance(n.value, ast.Call) and call_name(n.value).endswith("get_data_secure_group_keys") for t in n.targets if isinstance(t, ast.Name)), None)
+    nones = [n for n in icfg.nodes if n.kind == "stmt" and isinstance(n.ast, ast.Return) and (n.ast.value is None or (isinstance(n.ast.value, ast.Constant) and n.ast.value.value is None))]
+    ok_none = keys_local is not None and bool(nones) and all(any((a == f"not {keys_local}" and v) or (a == keys_local and v is False) for a, v in imf[n.id]) for n in nones) and not icfg.falls_off_end()
+    chk.ob("keyring-with-group-keys-always-gives-data-secure", ik.site(), ok_none, "DataSecure.init_from_keyring returns None " + ("only where the keyring has no group keys" if ok_none else "also for a keyring that has group keys (eg. none of them lists a sender): Data Secure stays off - plain frames to the keyed addresses are delivered and telegrams to them are sent plain"), key="wiring|init-from-keyring-none")
     n_sites = 0
     for f, c in call_sites(repo, "data_secure_init"):
         if f.module.name.startswith("xknx.") is False:
